@@ -1035,43 +1035,55 @@ def parse_g(rest):
 
 def run_harness18(cases, harness_bin, iters, sched, seed, trace_dir=None, trace_cap=10, shards=6,
                   pct_depth=3, max_steps=400000, timeout=3000, ref_orders=0):
+    """Run cyc_par over the cases (sharded over processes).  A process stops after the first case
+    with a failed execution (exit status 4: a failed shuttle execution taints the process) or
+    dies (a panic that could not be contained: the running case is a finding); the cases it did
+    not reach are run again in fresh processes."""
     m = re.match(r"^pct(\d+)$", sched)
     if m:                                   # "pct50" = the PCT scheduler with 50 priority change points
         sched, pct_depth = "pct", int(m.group(1))
     os.makedirs(os.path.join(common.BUILD, "cases"), exist_ok=True)
     tmpd = tempfile.mkdtemp(prefix="cyc", dir=os.path.join(common.BUILD, "cases"))
-    chunks = [cases[i::shards] for i in range(shards) if cases[i::shards]]
-    procs = []
-    for n, ch in enumerate(chunks):
-        path = os.path.join(tmpd, f"cases{n}.txt")
-        with open(path, "w") as f:
-            f.write("\n".join(ch) + "\n")
-        cmd = [harness_bin, path, "--iters", str(iters), "--sched", sched, "--seed", str(seed),
-               "--pct-depth", str(pct_depth), "--max-steps", str(max_steps), "--trace-cap", str(trace_cap)]
-        if ref_orders:
-            cmd += ["--ref-orders", str(ref_orders)]
-        if trace_dir:
-            cmd += ["--trace-dir", trace_dir]
-        procs.append(subprocess.Popen(cmd, stdout=subprocess.PIPE, stderr=subprocess.DEVNULL, text=True))
     out = {}
     hung = False
-    for p in procs:
-        o, _ = p.communicate(timeout=timeout)
-        if p.returncode == 3:
-            hung = True
-        elif p.returncode != 0:
-            # the process died under an explored schedule (e.g. an assertion inside salsa fired
-            # and the panic could not be contained): the case that was running is a FINDING
+    pending = list(cases)
+    rounds = 0
+    while pending and rounds < 40:
+        rounds += 1
+        chunks = [pending[i::shards] for i in range(shards) if pending[i::shards]]
+        procs = []
+        for n, ch in enumerate(chunks):
+            path = os.path.join(tmpd, f"cases{rounds}-{n}.txt")
+            with open(path, "w") as f:
+                f.write("\n".join(ch) + "\n")
+            cmd = [harness_bin, path, "--iters", str(iters), "--sched", sched, "--seed", str(seed),
+                   "--pct-depth", str(pct_depth), "--max-steps", str(max_steps), "--trace-cap", str(trace_cap)]
+            if ref_orders:
+                cmd += ["--ref-orders", str(ref_orders)]
+            if trace_dir:
+                cmd += ["--trace-dir", trace_dir]
+            procs.append(subprocess.Popen(cmd, stdout=subprocess.PIPE, stderr=subprocess.DEVNULL, text=True))
+        progressed = False
+        for p in procs:
+            o, _ = p.communicate(timeout=timeout)
             part = parse_harness18(o)
-            crashed = [cid for cid, c in part.items() if not c.get("end")]
-            if not crashed:
-                raise common.CheckError(f"{CYC_BIN} exited with {p.returncode}:\n{o[-1500:]}")
-            for cid in crashed:
-                part[cid]["fails"].append(dict(i=-1, kind="crash", sched=sched,
-                                               msg=f"{CYC_BIN} died with exit status {p.returncode} while running this case: {o[-300:]!r}"))
+            if p.returncode == 3:
+                hung = True
+            elif p.returncode not in (0, 4):
+                # the process died under an explored schedule (e.g. an assertion inside salsa fired
+                # and the panic could not be contained): the case that was running is a FINDING
+                crashed = [cid for cid, c in part.items() if not c.get("end")]
+                if not crashed:
+                    raise common.CheckError(f"{CYC_BIN} exited with {p.returncode}:\n{o[-1500:]}")
+                for cid in crashed:
+                    part[cid]["fails"].append(dict(i=-1, kind="crash", sched=sched,
+                                                   msg=f"{CYC_BIN} died with exit status {p.returncode} while running this case: {o[-300:]!r}"))
+            if part:
+                progressed = True
             out.update(part)
-            continue
-        out.update(parse_harness18(o))
+        pending = [c for c in pending if c.split()[1] not in out]
+        if not progressed or hung:
+            break
     import shutil
     shutil.rmtree(tmpd, ignore_errors=True)
     return out, hung
